@@ -3,6 +3,8 @@ package main
 import (
 	"encoding/json"
 	"fmt"
+	"github.com/scrapli/scrapligo/driver/options"
+	"github.com/scrapli/scrapligo/util"
 	"reflect"
 	"strings"
 	"time"
@@ -27,6 +29,7 @@ type c09Scn struct {
 	Class    string `json:"class"`
 	Selected string `json:"selected"`
 	Seg      string `json:"seg,omitempty"`
+	Idx      *int   `json:"idx,omitempty"` // replay: the position the scenario had in its run
 	idx      int
 }
 
@@ -64,12 +67,58 @@ func c09Run(s *c09Scn, segName string) verdict {
 		pref = ""
 	}
 
+	var extra []util.Option
+	if s.idx%3 == 0 {
+		// the option changes what later requests look like, not how they are framed
+		extra = append(extra, options.WithNetconfForceSelfClosingTags())
+	}
+
 	sess, err := newNcSession(ncConfig{adv10: s.Adv10, adv11: s.Adv11, preferred: pref, echo: s.Echo, seg: faultSegs[segName], seed: int64(s.idx),
-		timeout: 3 * time.Second, hello: hello, reply: ncReplyOK})
+		timeout: 3 * time.Second, hello: hello, reply: ncReplyOK, extra: extra})
 	if err != nil {
 		fail(&v, "C09:new-error", "%v", err)
 
 		return v
+	}
+
+	if s.idx%4 == 1 && s.Class == "ok" {
+		// a first session with ANOTHER hello (base:1.0 only, capabilities of its own) on the same driver object, closed again:
+		// everything the second open reports must come from the second hello alone
+		sess.pipe.Lock()
+		sess.srv.Hello = simdev.HelloXML([]string{cap10, "urn:first:session:only"}, "999", "", true, false)
+		sess.srv.Advertises = map[string]bool{"1.0": true, "1.1": false}
+		sess.pipe.Unlock()
+
+		pv := sess.d.PreferredVersion
+		sess.d.PreferredVersion = ""
+
+		var e1 error
+
+		fin1, _ := withWatchdog(5*time.Second, func() {
+			if e1 = sess.d.Open(); e1 == nil {
+				e1 = sess.d.Close()
+			}
+		})
+		if !fin1 || e1 != nil {
+			v.OK, v.Sig, v.Detail = false, "TOOL", fmt.Sprintf("the preliminary session failed: fin=%v err=%v", fin1, e1)
+
+			return v
+		}
+
+		sess.d.PreferredVersion = pv
+
+		sess.pipe.Lock()
+		sess.srv.Hello = hello
+		sess.srv.Advertises = map[string]bool{"1.0": s.Adv10, "1.1": s.Adv11}
+		sess.srv.Requests = nil
+		sess.srv.FramingErrors = nil
+		sess.pipe.Unlock()
+	}
+
+	helloWriteFails := s.idx%5 == 2
+	if helloWriteFails {
+		// the transport refuses the write that carries the client's hello: Open must not report success
+		sess.pipe.ArmWriteFailure(0)
 	}
 
 	var oerr error
@@ -89,6 +138,14 @@ func c09Run(s *c09Scn, segName string) verdict {
 	}
 
 	defer func() { _, _ = withWatchdog(3*time.Second, func() { _ = sess.d.Close() }) }()
+
+	if helloWriteFails {
+		if oerr == nil && s.Class == "ok" {
+			fail(&v, "C09:open-success-without-hello", "the write of the client's hello failed, Open reported success (%s)", cell)
+		}
+
+		return v
+	}
 
 	got := errClass(oerr)
 	if got != s.Class {
@@ -185,6 +242,10 @@ func c09(_ []string) error {
 		}
 
 		s.idx = len(scns)
+		if s.Idx != nil {
+			s.idx = *s.Idx
+		}
+
 		scns = append(scns, s)
 
 		return nil
